@@ -148,10 +148,10 @@ theorem dspacing_from_tof_dtype (dt dL dθ : DTy) (h1 : dt ≠ err) (h2 : dL ≠
   cases dt <;> cases dL <;> cases dθ <;> first | rfl | contradiction
 
 open DTy in
-/-- `energy_from_tof`: the flight path is promoted to float64 before it is squared, so only an int32 *tof* cannot be
-evaluated (scipp has no `pow` for an int32 base); otherwise the precision follows tof -/
+/-- `energy_from_tof`: the flight path is promoted to float64 and the time to its floating type before they are
+squared, so every dtype can be evaluated and the precision follows tof -/
 theorem energy_from_tof_dtype (dt dL : DTy) (h1 : dt ≠ err) (h2 : dL ≠ err) :
-    energyFromTof (cEnergy f64 f64 f64 f64) dt dL = if dt = i32 then err else floatDType dt := by
+    energyFromTof (cEnergy f64 f64 f64 f64) dt dL = floatDType dt := by
   cases dt <;> cases dL <;> first | rfl | contradiction
 
 open DTy in
